@@ -259,6 +259,49 @@ pub fn bar_cells(_args: &[String]) -> String {
             }
         }
     }
+    // a fine-grained set (10 clusters): '#' filled, '1'..'8' partial, '-' background
+    for n in [1usize, 2, 8, 20] {
+        let t = format!("{{bar:{}}}", n);
+        let style = ProgressStyle::with_template(&t).unwrap().progress_chars("#12345678-");
+        for len in [3u64, 10, 128, 1000] {
+            for pos in 0..=len + 1 {
+                let f = frame(&style, Some(len), pos, "", "", 0, 0, 80);
+                tried += 1;
+                let line = f.lines.get(0).map(|l| l.1.clone()).unwrap_or_default();
+                let filled = line.chars().take_while(|c| *c == '#').count();
+                let head = line.chars().skip(filled).take_while(|c| ('1'..='8').contains(c)).count();
+                let bg = line.chars().skip(filled + head).take_while(|c| *c == '-').count();
+                let want_filled = if pos >= len { n as u64 } else { pos * n as u64 / len };
+                let bad = if filled + head + bg != n || line.chars().count() != n || head > 1 {
+                    Some("the bar occupies exactly N cells: filled, at most one partial cell out of the configured characters, background")
+                } else if filled as u64 != want_filled {
+                    Some("filled == floor(fraction * cells)")
+                } else if (head == 1) != (pos > 0 && pos < len) {
+                    Some("a partial cell exactly when the bar is neither empty nor full")
+                } else { None };
+                if let Some(b) = bad {
+                    return format!("{{\"found\": true, \"clause\": {}, \"tried\": {}, \"input\": {{\"template\": {}, \"progress_chars\": \"#12345678-\", \"pos\": {}, \"len\": {}, \"rendered\": {}}}, \"rerun\": \"replay bar_cells\"}}",
+                        crate::js(&format!("C13 {}", b)), tried, crate::js(&t), pos, len, crate::js(&line));
+                }
+            }
+        }
+    }
+    // the top of the u64 range: the geometry still holds its shape (and nothing panics: C14)
+    for chars in ["#>-", "#12345678-"] {
+        for (pos, len) in [(u64::MAX, u64::MAX), (u64::MAX / 2, u64::MAX), (u64::MAX / 40, u64::MAX), (u64::MAX - 1, u64::MAX), (1, u64::MAX), (u64::MAX, 1)] {
+            for t in ["{bar:20}", "{wide_bar}"] {
+                let style = ProgressStyle::with_template(t).unwrap().progress_chars(chars);
+                let f = frame(&style, Some(len), pos, "", "", 0, 0, 40);
+                tried += 1;
+                let line = f.lines.get(0).map(|l| l.1.clone()).unwrap_or_default();
+                let want = if t == "{bar:20}" { 20 } else { 40 };
+                if line.chars().count() != want {
+                    return format!("{{\"found\": true, \"clause\": \"C13 the bar occupies exactly its cells, also at the top of the u64 range\", \"tried\": {}, \"input\": {{\"template\": {}, \"pos\": \"{}\", \"len\": \"{}\", \"rendered\": {}}}, \"rerun\": \"replay bar_cells\"}}",
+                        tried, crate::js(t), pos, len, crate::js(&line));
+                }
+            }
+        }
+    }
     format!("{{\"found\": false, \"tried\": {}}}", tried)
 }
 
